@@ -57,6 +57,7 @@ func runK2srv(r *rng, n int) {
 			rep, err := peer.readFrame(8 * time.Second)
 			if err != nil || len(rep) < 7 {
 				lost = 1
+				noteHang() // a frame that is never answered costs the whole wait: stop after a few
 				break
 			}
 			got = append(got, fmt.Sprintf("%d:%d", binary.LittleEndian.Uint16(rep[5:]), rep[4]))
